@@ -828,6 +828,11 @@ def _eval_world(w, d):
         (d / "grid.dat").write_text("\n".join(" ".join(repr(x) for x in p) for p in pts) + "\n")
         grid_rows = np.array(pts, float)
         over["grid"] = str(d / "grid.dat")
+    if w.get("grid_pts"):       # explicit start points (-grid file with exactly these rows), e.g. next to a periodic face
+        pts = [[float(x) for x in p] for p in w["grid_pts"]]
+        (d / "grid.dat").write_text("\n".join(" ".join(repr(x) for x in p) for p in pts) + "\n")
+        grid_rows = np.array(pts, float)
+        over["grid"] = str(d / "grid.dat")
     if w.get("gs"):
         over["grid_spacing"] = float(w["gs"])
     # ---- build file
@@ -940,6 +945,8 @@ def cli_line(w):
             s += f" {opt} {w[key]}"
     if w.get("grid"):
         s += f" -grid grid.dat({w['grid']} points)"
+    if w.get("grid_pts"):
+        s += f" -grid grid.dat(rows {w['grid_pts']})"
     if w.get("restraints") or w.get("bld_extra"):
         s += " -b opts.bld{" + bld_text(w.get("restraints", []), w.get("bld_extra", "")).replace("\n", " / ") + "}"
     s += "  [molecules] " + " ".join(f"{t} {c}" for t, c in w["molecules"]) + f"  seed {w['seed']}"
@@ -1587,11 +1594,79 @@ def run_c07(ctx, res):
                 r3 = {"kind": "rw", "mol": "CH7", "mfrom": 0, "mto": 1, "resname": "RA", "rfrom": 2, "rto": 8, "normal": [0.0, 0.0, 1.0], "angle": 80.0}
                 worlds.append(dict(unit="c07", molecules=[["CH7", 1]], box=box, restraints=[r1, r2], seed=s, maxiter=400))
                 worlds.append(dict(unit="c07", molecules=[["CH7", 1]], box=box, restraints=[r1, r3], seed=s, maxiter=400))
+    # ---- (a) restraint regions at a periodic face: one chain of 10 started 0.1-0.15 nm from a face of the 4 nm box (explicit -grid rows), so that
+    # trial steps cross that face; 'out' regions touch the OPPOSITE face (the image of a crossing step lands in them), 'in' regions reach past
+    # the face next to the start (the step stays in the region, its stored image does not).  All 10 residues are selected.
+    def at_face(axis, side, v):
+        """[2,2,2] with coordinate `axis` replaced by v measured from the lower (side=0) or from the upper face (side=1)"""
+        q = [2.0, 2.0, 2.0]
+        q[axis] = v if side == 0 else round(4.0 - v, 6)
+        return q
+
+    def prm_along(kind, axis, along, across):
+        if kind == "sphere":
+            return [along]
+        if kind == "cylinder":      # radius in xy, half-height in z
+            return [across, along] if axis == 2 else [along, across]
+        return [along if i == axis else across for i in range(3)]
+
+    n_face = n_multi = 0
+    faces = [(0, 1), (0, 0), (2, 1), (1, 0), (1, 1), (2, 0)]       # (axis, side the chain starts at)
+    face_seeds = seeds[:2] if not ctx.thorough else seeds
+    for fi, (axis, side) in enumerate(faces if ctx.thorough else faces[:3]):
+        second = at_face(axis, side, 0.15)
+        second[(axis + 1) % 3] += 0.4
+        start_pts = [at_face(axis, side, 0.1), second]      # two rows: a one-row -grid file is read as a 1-D array and refused by the walk
+        for kind in ("sphere", "cylinder", "rectangle"):
+            # out: region of half-width 1.0 (sphere/cylinder: radius) centred ON / 0.5 nm inside the opposite face, wide (5 nm) across
+            c_out = at_face(axis, 1 - side, 0.0 if kind != "rectangle" else 0.5)
+            p_out = prm_along(kind, axis, 1.0 if kind != "rectangle" else 0.5, 5.0)
+            # in: region centred 0.2 nm (rectangle 0.5) inside the face next to the start, reaching 1.0 / 0.5 nm past it
+            c_in = at_face(axis, side, 0.2 if kind != "rectangle" else 0.5)
+            p_in = prm_along(kind, axis, 1.2 if kind != "rectangle" else 1.0, 1.3)
+            for (io, cc, pp) in (("out", c_out, p_out), ("in", c_in, p_in)):
+                if not ctx.thorough and (fi + ("sphere", "cylinder", "rectangle").index(kind) + (io == "in")) % 2 and fi > 0:
+                    continue        # quick: all 6 kinds on the first face, every other one on the next two
+                for s in face_seeds:
+                    rs = {"kind": kind, "mol": "CH10", "mfrom": 0, "mto": 1, "resname": "RA", "rfrom": 1, "rto": 11, "inout": io, "c": cc, "prm": pp}
+                    worlds.append(dict(unit="c07", molecules=[["CH10", 1]], box=box, restraints=[rs], seed=s, maxiter=400, grid_pts=start_pts))
+                    n_face += 1
+    # ---- (b) several distance restraints on one molecule: 2-3 restraints sharing the anchor residue 0 with nested paths, every declaration order
+    def dist(a, b_, dd, tol, mto=1):
+        return {"kind": "dist", "mol": "CH10", "mfrom": 0, "mto": mto, "a": a, "b": b_, "d": dd, "tol": tol}
+
+    nested = [[(0, 4, 1.5, 0.1), (0, 8, 0.9, 0.1)],                      # stretch the first half, fold back
+              [(0, 3, 0.6, 0.1), (0, 9, 1.8, 0.2)],                      # compact start, extended end
+              [(4, 0, 1.4, 0.1), (0, 9, 1.0, 0.2)],                      # anchor written second
+              [(0, 3, 1.1, 0.1), (0, 6, 1.6, 0.2), (0, 9, 0.8, 0.2)]]    # three nested
+    multi_seeds = seeds[:2] if not ctx.thorough else seeds
+    for si, group in enumerate(nested):
+        orders = list(itertools.permutations(group))
+        if not ctx.thorough and len(orders) > 2:
+            orders = [orders[0], orders[-1], orders[2]]
+        for order in orders:
+            for mto in ((1,) if not ctx.thorough else (1, 2)):
+                for s in multi_seeds:
+                    worlds.append(dict(unit="c07", molecules=[["CH10", mto]], box=[5.0, 5.0, 5.0], restraints=[dist(*r, mto=mto) for r in order], seed=s, maxiter=400))
+                    n_multi += 1
+    for order in itertools.permutations(nested[0]):     # ... plus one geometric restraint on the same molecule
+        for (kind, io, cc, pp) in (("sphere", "in", [2.5, 2.5, 2.5], [1.6]), ("rectangle", "out", [2.5, 2.5, 2.5], [0.6, 0.6, 5.0])):
+            for s in multi_seeds:
+                g = {"kind": kind, "mol": "CH10", "mfrom": 0, "mto": 1, "resname": "RA", "rfrom": 1, "rto": 11, "inout": io, "c": cc, "prm": pp}
+                worlds.append(dict(unit="c07", molecules=[["CH10", 1]], box=[5.0, 5.0, 5.0], restraints=[dist(*r) for r in order] + [g], seed=s, maxiter=400))
+                n_multi += 1
     res.bound = (f"one restraint kind per build file: {{sphere, cylinder, rectangle}} x {{in, out}} x residue ranges {{all, 3..5}} x molecule ranges {{both, second only}} x 2 boxes on "
                  f"2 chains of 6 ({n_geom} worlds); rw_restriction: 2 normals x angles {{60, 30, -120}} x 2 residue ranges x {{4 nm box, 1.9 nm box (steps wrap)}} on a chain of 7 + solvent "
                  f"({n_rw}); distance_restraints: pairs (0,6),(1,5) of 7, (5,0) of 6, (0,8) of 9 x d {{0.8, 1.5}} x tol {{0.05, 0.3}} on 2 molecules ({n_dist}); persistence_length WCM: "
                  f"chains of 5..10 x lp {{0.6, 1.5, 4.0}} x 1-2 molecules per batch ({n_pers}); -cycles: rings of 3..8 x -cycle_tol {{0, 0.1, 0.3}} x {{1 ring, solvent + 2 rings}} ({n_cyc}); "
-                 f"{nseeds} seeds each (geometric: 2); thorough adds pairs of kinds")
+                 f"{nseeds} seeds each (geometric: 2); thorough adds pairs of kinds; "
+                 f"restraint regions at a periodic face: 1 chain of 10 started 0.1-0.15 nm from a face of the 4 nm box (-grid file with two such rows; faces "
+                 f"{'+x -x +z -y +y -z' if ctx.thorough else '+x, and half of the kinds at -x +z'}) x {{sphere, cylinder, rectangle}} x {{out region touching the opposite face, "
+                 f"in region reaching 0.5-1 nm past the face at the start}} x {len(face_seeds)} seeds, all residues selected, checked on the stored (wrapped) positions ({n_face}); "
+                 f"several distance restraints on one molecule: chain of 10, restraints sharing residue 0 with nested paths {{(0,4)+(0,8), (0,3)+(0,9), (4,0)+(0,9), "
+                 f"(0,3)+(0,6)+(0,9)}} in {'every declaration order' if ctx.thorough else 'both declaration orders (3 of the 6 for the triple)'}"
+                 f"{' x 1-2 molecules' if ctx.thorough else ''}, plus (0,4)+(0,8) in both orders with a sphere-in / rectangle-out restraint on all residues, "
+                 f"x {len(multi_seeds)} seeds ({n_multi}); every declared restraint of a world is checked")
     res.rule = ("non-trivial iff distinct, finished, and >= 1 generated residue / residue pair is subject to a declared restraint (counted per world: 'active' > 0); the end-to-end "
                 "sample of generate_end_end_distances is recorded (and its numpy reseeding scripted to the world's seed)")
     res.exhaustive = True
